@@ -66,6 +66,7 @@ def worker(a):
     digests = set()
     n_dumped = 0
     dumped_sigs = set()
+    known_list, _ = load_known()
     rdir = VERIF / 'replays'
     for i in range(a.start, a.start + a.count):
         if time.time() >= deadline:
@@ -101,18 +102,24 @@ def worker(a):
                                    'n_events': r['n_events'], 'n_choices': r['n_choices'],
                                    'digest': r['digest']})
         if r['violations']:
-            v = r['violations'][0]
-            entry = {'index': i, 'run_seed': rs, 'violation': v, 'all': r['violations'][:5]}
-            if n_dumped < 4 or (v['sig'] not in dumped_sigs and n_dumped < 12):
-                dumped_sigs.add(v['sig'])
-                rdir.mkdir(exist_ok=True)
-                path = rdir / f'raw-{a.prop}-{rs:016x}.json'
-                with open(path, 'w') as f:
-                    json.dump(core.make_replay(a.prop, run, a.tier, v), f)
-                entry['raw'] = str(path)
-                n_dumped += 1
-            res['violations'].append(entry)
-            if not a.keep_going and len(res['violations']) >= 20:
+            seen_sigs = set()
+            for v in r['violations']:
+                if v['sig'] in seen_sigs:
+                    continue
+                seen_sigs.add(v['sig'])
+                entry = {'index': i, 'run_seed': rs, 'violation': v, 'all': r['violations'][:5]}
+                if v['sig'] not in dumped_sigs and n_dumped < 16:
+                    dumped_sigs.add(v['sig'])
+                    rdir.mkdir(exist_ok=True)
+                    path = rdir / f'raw-{a.prop}-{rs:016x}-{len(seen_sigs)}.json'
+                    with open(path, 'w') as f:
+                        json.dump(core.make_replay(a.prop, run, a.tier, v), f)
+                    entry['raw'] = str(path)
+                    n_dumped += 1
+                res['violations'].append(entry)
+            unknown = sum(1 for e in res['violations']
+                          if match_known(known_list, a.prop, e['violation']['sig']) is None)
+            if not a.keep_going and unknown >= 20:
                 break
     res['digests'] = sorted(digests)
     res['stats'] = dict(res['stats'])
@@ -401,6 +408,8 @@ def run_checks(a):
     if runs == 0:
         print('HARNESS-ERROR no runs executed')
         return 2
+    if n_new:
+        return 1
     if len(digests) < 2:
         print('HARNESS-ERROR fewer than 2 distinct non-trivial runs')
         return 2
